@@ -113,14 +113,14 @@ def run(ctx):
         if os.environ.get("C14_SKIP_MODEL"):  # development aid for mutation testing only (models do not depend on /repo)
             ctx.log("C14_SKIP_MODEL set: exhaustive model runs skipped")
         elif quick:
-            ctx.model("MC_Tsig", "MC_Tsig_quick.cfg", heap="3g")
-            ctx.model("MC_Tsig", "MC_Tsig_quick_stream.cfg", heap="3g")
+            ctx.model("MC_Tsig", "MC_Tsig_quick.cfg", heap="3g", workers=1)  # 1 worker = 1 TLC slot: not starved on a busy machine
+            ctx.model("MC_Tsig", "MC_Tsig_quick_stream.cfg", heap="3g", workers=1)
         else:
             ctx.model("MC_Tsig", "MC_Tsig_thorough.cfg", heap="6g")
             ctx.model("MC_Tsig", "MC_Tsig_thorough_stream.cfg", heap="6g")
         for inv in () if os.environ.get("C14_SKIP_MODEL") else ("Vac_StreamAllAccepted", "Vac_TaintRejected", "Vac_EdgeAccepted", "Vac_EdgeRejected"):
             r = ctx.model("MC_Tsig", ctx.cfg("vac_%s.cfg" % inv, VAC_CFG.format(inv="INVARIANT " + inv)), expect_ok=False,
-                          count=False, workers=2, heap="1g")
+                          count=False, workers=1, heap="1g")
             if r.violated != inv:
                 from vlib import core
                 raise core.Machinery("vacuity witness %s not reachable (violated=%s errors=%s)" % (inv, r.violated, r.errors[:2]))
